@@ -131,6 +131,9 @@ func (vt *Model) decset(params [][]int) {
 			// Enable altScroll in the alt screen. This is only used
 			// if the application doesn't enable mouse
 			vt.mode.altScroll = true
+			// the alternate screen starts out cleared, in the current
+			// background
+			vt.ed(2)
 		case 2004:
 			vt.mode.paste = true
 		}
